@@ -33,6 +33,8 @@ class Res(object):
     def close(self):
         with Res._lock:
             self.closed += 1
+        if self.rid % 3 == 0:
+            raise IOError("resource %d could not be released cleanly" % self.rid)     # one resource failing must not keep the others from being closed
 
 
 class World:
